@@ -24,6 +24,7 @@ ASSUMPTIONS = [
     'symbolic); ids below 65536; labels "" / "probe00" / "probe01"; unit factors from {0.5, 1, 2.5}',
     'uuid.uuid4 is the real generator (distinctness is checked on the values drawn)',
     'spike-subset export draws (np.random.choice) are an arbitrary-subset stub',
+    'forms added after seeding rounds: spike samples up to 2**40; merged dataset with an 8-bit probe table and raw channel ids up to 400',
 ]
 STUBS = ['virtual file system (np.save/np.load/open/glob/rename/shutil.copy)', 'tqdm', 'np.random.choice']
 OUTSIDE = ['byte formats (replays use real files)', 'sparse-template export (not implemented upstream)']
